@@ -1,4 +1,5 @@
 //! Seeded generators and mutators.
+pub mod bigutf8;
 pub mod doc;
 pub mod dynval;
 pub mod mutate;
